@@ -203,15 +203,15 @@ CLAIMED = {
 }
 
 NA = {
- "C02": "the oracle is rustc on generated text; a solver cannot encode rustc and the generator is unreachable as for C01",
+ "C02": "the oracle is rustc (type and borrow checking of the generated project): neither engine can encode it - E2-X decides WHICH tokens each emission path writes (C01) and syn whether they parse, but 'compiles' for every accepted program needs rustc's own semantics; the per-path token classes that are decided are claimed under C01, not here",
  "C08": "needs formatter -> lexer -> parser on symbolic ASTs; measured: formatter alone on a one-function AST > 25 min, round trip on a 1-char literal > 19 min",
  "C09": "same pipeline twice; --check/--diff not writing files is file-system behaviour with no encodable unit",
- "C10": "needs two lexer runs on symbolic text; measured: one run on 3 symbolic layout characters does not finish (20+ min, 6 GB)",
+ "C10": "needs two lexer runs on symbolic text: under Kani one run on 3 symbolic layout characters does not finish (measured: 20+ min, 6 GB, also with the token vector logged); the MIR executor (E2-X) has no model of strings / char iterators with positions, which is all the lexer's INDENT/DEDENT synthesis consists of",
  "C12": "the property is about HashMap iteration order under random SipHash keys; hashbrown + SipHash with symbolic keys is far beyond the 2-insert measurement",
  "C15": "add_rust_crate/generate_cargo_toml insert into and iterate HashMap/HashSet and build text with format!; comparing scanners with use-insertion needs the emitter",
  "C16": "the verdict is the exit status of a spawned cargo test on a generated project; aggregation is inlined in a function doing file discovery and printing",
- "C18": "Kani has no concurrency model; the handlers (lexer, parser, TypeChecker, tokio RwLock, tower-lsp Client) are not executable under CBMC; a hand-written model would not be the real code",
- "C20": "the code under test is #[derive] expansion of emitter output plus serde_json at run time; it does not exist until rustc compiles a generated project",
+ "C18": "a property over interleavings of async handlers: Kani has no concurrency model, the handlers' bodies (lexer, parser, TypeChecker, tokio RwLock, tower-lsp Client) are not executable under CBMC, and the MIR executor runs one sequential function at a time - the async state machines rustc generates for the handlers are not among the MIR shapes it supports; a hand-written model of the await structure would not be the real code",
+ "C20": "the code under test is the #[derive] expansion of emitter output (incan_derive proc-macros, serde) plus serde_json at run time: it exists only after rustc compiles a generated project, so there is no MIR of it in the repository's crates to execute and nothing for Kani to link against",
 }
 
 import sys
